@@ -53,8 +53,52 @@ def targeted(rng, kind):
     return dict(members=members, eof=eof, rd=1, ops=ops)
 
 
+def full_size(rng, kind):
+    """A member that inflates to exactly 65536 bytes (MaxBlockSize; 65535 / 65280 as controls), read to its
+    last byte, pushed into the cache by moving on, and met again through Seek or through nextBlock."""
+    big = rng.choice([65536] * 8 + [65535, 65280])
+    pre = [[rng.randrange(0, 30), rng.randrange(1000)] for _ in range(rng.randrange(0, 3))]
+    post = [[rng.randrange(1, 30), rng.randrange(1000)] for _ in range(rng.randrange(1, 3))]
+    members = pre + [[big, rng.randrange(1000)]] + post
+    p = len(pre)
+    eof = rng.random() < 0.5
+    ops = []
+    if rng.random() < 0.7:
+        ops.append(['setcache', kind, rng.randrange(1, 4)])
+    ops.append(['seek', p, 0])
+    if not ops or ops[0][0] != 'setcache':
+        ops.append(['setcache', kind, rng.randrange(1, 4)])
+    how = rng.randrange(4)
+    if how == 0:
+        ops.append(['read', big])                        # exactly to the last byte
+    elif how == 1:
+        ops += [['read', big - 1], ['byte']]
+    elif how == 2:
+        ops += [['read', 40000], ['read', big - 40000]]
+    else:
+        ops += [['seek', p, 65535 if big == 65536 else big - 1], ['byte']]
+        if rng.random() < 0.5:
+            ops.insert(-2, ['read', big])
+    ops.append(rng.choice([['read', 3], ['byte'], ['seek', p + 1, 0], ['seek', len(members) - 1, 0]]))    # the full block goes to the cache
+    ops += [['seek', p, 0], rng.choice([['read', 5], ['byte'], ['read', big], ['read', big + 2]])]        # and comes back at once
+    ops.append(['seek', rng.choice([p + 1, len(members) - 1]), 0])
+    for _ in range(rng.randrange(1, 4)):
+        back = rng.randrange(3)
+        if back == 0 or p == 0:
+            ops += [['seek', p, 0], ['read', rng.choice([5, 23, big, big + 2])]]
+        elif back == 1:
+            ops += [['seek', p - 1, 0], ['read', members[p - 1][0] + rng.choice([1, 7, big + 1])]]    # arrives through nextBlock
+        else:
+            ops += [['seek', p, rng.choice([0, 1, 65535 if big == 65536 else big])], ['byte'], ['read', 9]]
+        ops.append(rng.choice([['seek', p + 1, 0], ['read', 50], ['reseek'], ['setcache', kind, rng.randrange(1, 3)]]))
+    ops += rdflat.gen_history(rng, members, eof, rng.randrange(0, 8), blocked_p=0.05)
+    return dict(members=members, eof=eof, rd=1, ops=ops)
+
+
 def gen_cases(rng, tier):
     cases = []
+    for k in range(6 if tier == "quick" else 90):
+        cases.append(full_size(rng, KINDS[k % len(KINDS)]))
     per, nops, kmax = (18, 40, 4) if tier == 'quick' else (300, 400, 6)
     for kind in KINDS:
         n = per if kind in ('lru', 'random', 'fifo') else per // 3
@@ -84,14 +128,14 @@ def judge(c, o, ou, stats=None):
     """Flat oracle on the cached run + literal comparison with the uncached run of the same history."""
     tag = tag_of(c)
     bad = rdflat.judge_history(c, o, tag, stats)
-    if bad or 'ops' not in o or 'ops' not in ou:
+    if any(not b[0].endswith(':lastchunk:end-of-65536-block') for b in bad) or 'ops' not in o or 'ops' not in ou:
         return bad
     for k, (a, b) in enumerate(zip(o['ops'], ou['ops'])):
         pa = (a['n'], a['ad'], a['err'], a['lc'])
         pb = (b['n'], b['ad'], b['err'], b['lc'])
         if pa != pb:
-            return [('%s:differs-from-uncached' % tag, 'call %d %s: with the cache (n, adler, err, LastChunk) = %s, without %s' % (k, c['ops'][k], pa, pb), dict(uncached=b))]
-    return []
+            return bad + [('%s:differs-from-uncached' % tag, 'call %d %s: with the cache (n, adler, err, LastChunk) = %s, without %s' % (k, c['ops'][k], pa, pb), dict(uncached=b))]
+    return bad
 
 
 def run(res, rng, tier):
@@ -138,7 +182,7 @@ def run(res, rng, tier):
     import c03async
     ok_n += c03async.run_async(res, rng, tier)
     res.extra['traces_validated_against_impl'] = ok_n
-    res.rule = ('rd = 1: files as in C02; histories of up to 40 (thorough: 400) calls with SetCache(kind, capacity 1..4 (thorough: 6)) at the start or at a random '
+    res.rule = ('rd = 1: files as in C02, plus files with a member of exactly 65536 bytes (MaxBlockSize) that is read to its last byte, cached and met again through Seek and through nextBlock; histories of up to 40 (thorough: 400) calls with SetCache(kind, capacity 1..4 (thorough: 6)) at the start or at a random '
                 'point, re-set (same kind, other capacity, or nil) at random points; kinds LRU, Random, FIFO and each wrapped in a StatsRecorder; one third of the '
                 'cases are small files (2..4 members of 1..5 bytes) with capacity 1..3 and seeks to block starts/ends, reads to and beyond the end. Every history is also '
                 'run without the cache and compared call by call. rd in {2,3,8} with a cache: a few random histories, and gated read-ahead schedules (see notes). '
